@@ -8,7 +8,7 @@ mod loopback;
 mod irrand;
 mod util;
 
-use run::Tier;
+use run::{Cases, Tier};
 
 fn arg_val(args: &[String], name: &str) -> Option<String> {
     args.iter().position(|a| a == name).and_then(|i| args.get(i + 1).cloned())
@@ -38,10 +38,15 @@ fn main() {
             let driver = arg_val(&args, "--driver").unwrap_or_else(|| "/verif/lean/.lake/build/bin/driver".into());
             let out = arg_val(&args, "--out").unwrap_or_else(|| format!("/verif/work/{}", prop));
             // panics inside guarded() are expected outcomes; keep stderr quiet
+            static LAST_PANIC: std::sync::Mutex<String> = std::sync::Mutex::new(String::new());
             if std::env::var("VERIF_PANIC").is_err() {
-                std::panic::set_hook(Box::new(|_| {}));
+                std::panic::set_hook(Box::new(|info| {
+                    if let Ok(mut l) = LAST_PANIC.lock() {
+                        *l = info.location().map(|l| format!("{}:{}", l.file(), l.line())).unwrap_or_default();
+                    }
+                }));
             }
-            let r = match prop.as_str() {
+            let r = std::panic::catch_unwind(|| match prop.as_str() {
                 "C15" => run::finish(ops::c15::cases(seed, tier), &driver, &out, seed, tier, ops::c15::RULE, serde_json::json!({})),
                 "C16" => run::finish(ops::c16::cases(seed, tier), &driver, &out, seed, tier, ops::c16::RULE, serde_json::json!({})),
                 "C12" => run::finish(ops::c12::cases(seed, tier), &driver, &out, seed, tier, ops::c12::RULE, serde_json::json!({})),
@@ -66,6 +71,20 @@ fn main() {
                 "C14" => run::finish(ops::c14::cases(seed, tier), &driver, &out, seed, tier, ops::c14::RULE, serde_json::json!({})),
                 "C07" => run::finish(ops::c07::cases(seed, tier), &driver, &out, seed, tier, ops::c07::RULE, serde_json::json!({})),
                 _ => Err(format!("unknown property {}", prop)),
+            });
+            let r = match r {
+                Ok(r) => r,
+                Err(e) => {
+                    // the harness itself was stopped by the implementation (a constructor refusing a valid value, a
+                    // panic outside a guarded call): report it as a failure of this run instead of dying silently
+                    let msg = e.downcast_ref::<&str>().map(|s| s.to_string()).or_else(|| e.downcast_ref::<String>().cloned()).unwrap_or_else(|| "panic".into());
+                    let at = LAST_PANIC.lock().map(|l| l.clone()).unwrap_or_default();
+                    let leaked: &'static str = Box::leak(prop.clone().into_boxed_str());
+                    let mut cs = Cases::new(leaked);
+                    cs.push("harness", "noop".into(), "noop".into(), true, format!("the harness run for {} (seed {}, tier {:?})", prop, seed, tier));
+                    cs.fail_last("harness:stopped", format!("the run was stopped at {} by: {}", at, msg));
+                    run::finish(cs, &driver, &out, seed, tier, "run stopped before the corpus was complete", serde_json::json!({}))
+                }
             };
             if let Err(e) = r {
                 eprintln!("run failed: {}", e);
